@@ -120,6 +120,26 @@ func runC02(r *Run) {
 		}
 		r.check(ok && us.Sign == -1 && same, "C02.R1", "RemoveShare|shares", v.pos(v.Decl), "the delegator loses exactly the share removed from the pool", "RemoveShare: delegator share delta "+renderTerms(ts)+" vs the share passed to RemoveShareFromOperator")
 	}
+	// new shares are priced against the pool as it stands: S * amount / TotalAmount of the same pool record
+	if cv := w.View("x/delegation/keeper", "Keeper.CalculateShare"); cv != nil {
+		okArgs, n := true, 0
+		for _, c := range cv.CallsNamed("SharesFromTokens") {
+			n++
+			if !(len(c.Args) == 3 && lastField(c.Args[0]) == "TotalShare" && lastField(c.Args[2]) == "TotalAmount" && isParamOf(cv, c.Args[1]) &&
+				rootIdent(c.Args[0]) != nil && rootIdent(c.Args[2]) != nil && cv.objOf(rootIdent(c.Args[0])) == cv.objOf(rootIdent(c.Args[2]))) {
+				okArgs = false
+			}
+		}
+		r.check(okArgs && n >= 1, "C02.R1", "CalculateShare|priced-against-pool", cv.pos(cv.Decl), "shares for a delegation = TotalShare x amount / TotalAmount of the pool (and nothing else in the denominator)", "CalculateShare does not call SharesFromTokens(info.TotalShare, amount, info.TotalAmount): the newcomer is priced against something else than the pool backing the shares")
+	}
+	// one association at a time: any existing association rejects the request
+	if av := w.View("x/delegation/keeper", "Keeper.AssociateOperatorWithStaker"); av != nil {
+		ok := av.rejectsWhen(av.Decl.Body, func(f Fact) bool {
+			c, isC := factCmp(f)
+			return isC && c.Op == "!=" && resolvesToCallV(av, c.L, "GetAssociatedOperator") && av.constOf(c.R) != nil && av.constOf(c.R).ExactString() == `""`
+		}, nil)
+		r.check(ok, "C02.R1", "Associate|rejects-existing-association", av.pos(av.Decl), "a staker that is already associated (with any operator) cannot be associated again", "AssociateOperatorWithStaker does not reject every request of an already associated staker: repeating the association adds the staker's shares to OperatorShare a second time")
+	}
 	for _, spec := range []struct {
 		fn   string
 		sign int
